@@ -323,9 +323,11 @@ def exists(vs, body, patterns=None):
 CHECK_SETTINGS = dict(mbqi=False, auto_config=False)
 
 
-def new_solver(timeout_ms=20000, seed=0):
+def new_solver(timeout_ms=20000, seed=0, relevancy=None):
     s = z3.Solver()
     s.set("smt.mbqi", False)
+    if relevancy is not None:
+        s.set("smt.relevancy", relevancy)
     s.set("smt.random_seed", seed)
     s.set("timeout", timeout_ms)
     try:
